@@ -65,8 +65,7 @@ def explore_pretty(prog, job):
     live = [A.live(i) for i in range(N)]
     eng.solver.add(z3.UGE(x, 1), z3.ULE(x, N), sel(live, x))
     if job.get('family') == 'tree':
-        # one tree filling the arena, numbered so that parents and earlier siblings have smaller slot numbers and a first child
-        # directly follows its parent (prunes relabelings of the same shape; the printer follows links only)
+        # one tree filling the arena, numbered in depth-first pre-order (one labelling per shape; the printer follows links only)
         for i in range(N):
             me = i + 1
             eng.solver.add(A.stamp[i] == 0)
@@ -76,6 +75,8 @@ def explore_pretty(prog, job):
                 eng.solver.add(A.some['parent'][i], z3.ULT(A.idx['parent'][i], me))
                 eng.solver.add(z3.Implies(A.some['prev'][i], z3.ULT(A.idx['prev'][i], me)))
                 eng.solver.add(z3.Implies(z3.Not(A.some['prev'][i]), A.idx['parent'][i] == me - 1))
+                # pre-order numbering: the parent of slot me lies on the path from slot me-1 to the root
+                eng.solver.add(is_ancestor_or_self(View(A.value()), A.idx['parent'][i], BV64(me - 1)))
         for k_, v_ in (job.get('fix_parent') or {}).items():
             eng.solver.add(A.idx['parent'][int(k_) - 1] == int(v_))
     alt = z3.Bool('alternate')
